@@ -52,6 +52,8 @@ pub struct StreamCtl {
     pub waker: Option<Waker>,
     pub dropped: bool,
     pub produced: usize,
+    /// the stream has returned `None` once
+    pub end_reported: bool,
 }
 
 /// Driver-side handle to a reply stream the service has opened.
@@ -99,9 +101,15 @@ impl futures_util::Stream for ControlledStream {
     type Item = Reply<Out>;
     fn poll_next(self: Pin<&mut Self>, cx: &mut Context<'_>) -> Poll<Option<Self::Item>> {
         let mut s = self.0.borrow_mut();
+        if s.end_reported {
+            // the Stream contract leaves polling after the end unspecified (`unfold` panics, others
+            // stay pending for ever): a server that does it has lost track of the stream's state
+            panic!("server:reply-stream-polled-after-it-ended");
+        }
         if let Some(x) = s.queue.pop_front() {
             Poll::Ready(Some(x))
         } else if s.ended {
+            s.end_reported = true;
             Poll::Ready(None)
         } else {
             s.waker = Some(cx.waker().clone());
